@@ -73,6 +73,7 @@ MARKER_PROPS = {
     "VF:cmp.": ["C15"],
     "VF:intoowned.slice.region_to_region": ["C14", "C20"],
     "VF:intoowned.columns.region_to_region": ["C14", "C20"],
+    "VF:intoowned.columns.region_to_region_index": ["C12"],
     "VF:intoowned.nested.region_to_region": ["C14", "C20"],
     "VF:flatstack.": ["C03"],
     "VF:flatstack.get.returned_out_of_bounds": ["C03", "C13"],
